@@ -483,3 +483,4 @@ fn c09_reserialization_normal_form() {
     vassert!(matches!((&*a, &*b), (Ok(x), Ok(y)) if bytes_eq(x, y)), "C09.reserialization.absent_and_empty_extension_block_serialize_identically");
     vcover!(true, "C09.reserialization.cover.ran");
 }
+
